@@ -10,7 +10,7 @@ RULE = (
     "independent Hamilton/homogeneous model, calc_chi2 vs the explicit double sum, zero-chi2 for a measurement computed from the reference "
     "relative pose, the exact chi2 d^T Omega d for a measurement displaced by d, PSD => chi2 >= 0, linearity in Omega. 'graph': 1..12 "
     "edges over shared vertices, Graph.calc_chi2 vs the sum of reference chi2. Non-trivial = information non-diagonal or ill-conditioned "
-    "(cond >= 1e4), or an operand outside the suite box [0,1)^k."
+    "(cond >= 1e4), or an operand outside the suite box [0,1)^k. Also: the same edge objects evaluated in a second Graph over new Vertex objects; information in narrow dtypes (int8..int64, float16/32, bool); with probability 0.3% a large R^n graph of 4096/4097/8193/10000/16385 edges whose chi2 is compared with a vectorised closed form."
 )
 BUDGET = {"quick": 16 * 5000, "thorough": 16 * 50000}
 TOLERANCES = {
